@@ -27,6 +27,7 @@
 
 import inspect
 import math
+import re
 import typing
 import ttconv.imsc.namespaces as xml_ns
 import ttconv.utils
@@ -780,6 +781,9 @@ class StyleProperties:
 
         s = xml_attrib.split(" ")
 
+        if len(s) == 0 or any(c not in ("underline", "noUnderline", "lineThrough", "noLineThrough", "overline", "noOverline") for c in s):
+          raise ValueError("Bad tts:textDecoration syntax")
+
         underline = None
         line_through = None
         overline = None
@@ -1004,9 +1008,11 @@ class StyleProperties:
 
       shadows = []
 
-      for shadow in xml_attrib.split(","):
+      # split at the commas that separate shadows, not at those within rgb() and rgba() color expressions
 
-        cs = shadow.split()
+      for shadow in re.split(r",(?![^(]*\))", xml_attrib):
+
+        cs = re.split(r"\s+(?![^(]*\))", shadow.strip())
 
         if len(cs) < 2 or len(cs) > 4:
           raise ValueError("Invalid Syntax")
